@@ -90,7 +90,7 @@ def run_case(a):
                     pass
         st["foreign_planted"] = len(planted)
         preexisting = {p for p in planted}
-        path = rnd.choice(["cli", "cli-rel", "build", "init", "cli-config", "init-custom", "cli-flags-over-config", "cli-flags-over-config"])
+        path = rnd.choice(["cli", "cli-rel", "build", "init", "cli-config", "init-custom", "init-dotslash", "cli-flags-over-config", "cli-flags-over-config"])
         if path == "cli-flags-over-config":
             # the configuration file names ANOTHER output directory (with foreign files in it); the flags name the real one, so
             # the configured output directory is the flags' (flag > file) and the file's directory must stay untouched
@@ -126,6 +126,14 @@ def run_case(a):
                 if not os.path.exists(os.path.join(root, cfgrel)):
                     json.dump({"productName": "x", "build": {"frontendDist": "../dist"}, "plugins": {"shell": {"open": True}}}, open(os.path.join(root, cfgrel), "w"))
                 argv = [cli, "tauri-typegen", "init", "-p", os.path.relpath(src, cwd), "-g", os.path.relpath(os.path.join(root, outrel), cwd), "-v", mode]
+            elif path == "init-dotslash":
+                # init pointed, with an explicit ./, at the tauri.conf.json of the working directory while the project directory has
+                # one of its own: only the one it was pointed at may change
+                cfgrel = "app/tauri.conf.json"
+                for rel in ("app/tauri.conf.json", "app/src-tauri/tauri.conf.json"):
+                    if not os.path.exists(os.path.join(root, rel)):
+                        json.dump({"productName": rel, "plugins": {"shell": {"open": True}}}, open(os.path.join(root, rel), "w"))
+                argv = [cli, "tauri-typegen", "init", "-p", "./src-tauri", "-g", os.path.relpath(os.path.join(root, outrel), cwd), "-v", mode, "-o", "./tauri.conf.json"]
             elif path == "init-custom":
                 # init pointed at a stand-alone configuration file: that file (and only that) may be created / replaced
                 cfgrel = "app/config/typegen.custom.json"
@@ -149,7 +157,7 @@ def run_case(a):
                 for rel in d[kind]:
                     if path == "build" and rel == "app/tauri.conf.json":
                         continue   # written by the harness itself before the run (outside the snapshot window) — never by the tool
-                    if allowed(rel, outrel, cfgrel if path in ("init", "init-custom") else None, preexisting):
+                    if allowed(rel, outrel, cfgrel if path in ("init", "init-custom", "init-dotslash") else None, preexisting):
                         continue
                     viol.append(("C16 %s %s path=%s" % (kind, classify(rel, outnorm, srcrel), path.split("-")[0]),
                                  "%s: %s %s (layout %s, output %s)" % (label, kind, rel, layout, outrel), dict(wit, step=step)))
@@ -162,7 +170,7 @@ def run_case(a):
                     if not p or not p.startswith(root + os.sep):
                         continue
                     rel = os.path.relpath(p, root)
-                    if allowed(rel, outrel, cfgrel if path in ("init", "init-custom") else None, preexisting):
+                    if allowed(rel, outrel, cfgrel if path in ("init", "init-custom", "init-dotslash") else None, preexisting):
                         continue
                     if "O_CREAT" not in e["flags"] and e["call"] in ("openat", "open") and "O_WRONLY" not in e["flags"] and "O_RDWR" not in e["flags"] and "O_TRUNC" not in e["flags"]:
                         continue
